@@ -70,6 +70,15 @@ def run(rep, tier, seed):
         if b and rng.random() < 0.5:
             st = rng.randint(0, len(b)); ln = rng.randint(0, len(b) - st)
             cases.append("%s %s %d %d" % (rng.choice(["accept_range", "reject_range"]), b.hex(), st, ln)); expect.append(None)
+    # sub-ranges: a well-formed script between arbitrary text (which may itself contain marks), range = exactly the script:
+    # the script is edited, every byte outside the range stays as it was
+    for a, acc, rej in scripts[: n // 3]:
+        pre = "".join(rng.choice(SOUP + ["x", " ", "{--p--}"]) for _ in range(rng.randint(0, 6)))
+        suf = "".join(rng.choice(SOUP + ["y", " ", "{~~s~>t~~}", "{++q++}"]) for _ in range(rng.randint(0, 6)))
+        whole = (pre + a + suf).encode(); st = len(pre.encode()); ln = len(a.encode())
+        if not whole: continue
+        cases.append("accept_range %s %d %d" % (whole.hex(), st, ln)); expect.append((pre + acc + suf).encode())
+        cases.append("reject_range %s %d %d" % (whole.hex(), st, ln)); expect.append((pre + rej + suf).encode())
     model = common.run_lines_par(drv, cases, args=["bytes"]); impl = common.run_lines_par(har, cases)
     bad, ncorr = [], 0
     for c, e, m, i in zip(cases, expect, model, impl):
